@@ -1,1 +1,267 @@
--- property theorems for C17 (stub)
+import RP.Lemmas.Pgcopy
+import RP.Lemmas.PgcopyMap
+import RP.Lemmas.PgcopyProfile
+import RP.Lemmas.PgcopySpec
+/-! # C17 — Saved tables load back identically and match their declared column layout
+
+Model: `RP.Pgcopy` (`lean/RP/Model/Pgcopy.lean`), interpreted from the generated call lists of
+`save()` / `load()` (`RP.Gen.Layout`, `RP.Gen.C17`).  Format specification: `RP.PgSpec.pgParse`
+(`lean/RP/Spec/Pgcopy.lean`), written from the PostgreSQL documentation.
+
+* `layout_consistent` — for every table the COPY column list, the `columns()` types, the CREATE
+  TABLE types, the meaning and order of the fields written by `save()` and the meaning and order of
+  the fields read (and stored) by `load()` agree; decided on the generated lists.
+* `C17_file_*` — for ALL table contents the saved file is a well-formed COPY stream (signature,
+  flags, per-row field count, field lengths, trailer, nothing after it) and field `i` of every row is
+  the big-endian pattern, in the width of the declared type of column `i`, of the value that column
+  `i`'s *name* denotes (`regret` ↦ `memory.regret()` …).
+* `C17_roundtrip_*` — for ALL canonical tables `t` (any 64-bit and 32-bit patterns, any number of rows)
+  and ANY enumeration `rows` of `t` (the order the `BTreeMap` happens to iterate in):
+  `load (save rows) = ok t`.
+Values are bit patterns: NaN payloads, infinities, negative zero are covered by the quantifier. -/
+namespace RP.C17
+open RP.Pgcopy RP.PgSpec RP.Gen.Layout RP.Gen.C17
+
+/-! ## layout consistency -/
+
+/-- everything that is checked about one table's declared layout -/
+def layoutOK (s : Spec) (cols types : List String) (creates : List (String × String))
+    (wroles rroles loops expectedLoops : List String) : Bool :=
+  -- the generated call lists could be interpreted, and the wire layer's / the format's conditions
+  specOK s && pgOK s &&
+  -- as many fields as columns, as types
+  s.nfields == cols.length && types.length == cols.length &&
+  -- the meaning of the fields written / read, in order, is the COPY column list
+  wroles == cols && rroles == cols && cols.Nodup &&
+  -- widths written (announced and actual) and read are the widths of the declared column types
+  s.wfields.map (·.width) == types.map typeWidth && s.wfields.map (·.len) == types.map typeWidth &&
+  s.rfields.map (·.width) == types.map typeWidth && types.all (fun ty => typeWidth ty != 0) &&
+  -- CREATE TABLE gives every COPY column a type of the same width
+  (cols.zip types).all (fun ct => (creates.lookup ct.1).map typeWidth == some (typeWidth ct.2)) &&
+  -- the row loops bind the variables the dictionary of written expressions assumes
+  loops == expectedLoops
+
+/-- **layout_consistent**: COPY column names, `columns()` types, CREATE TABLE types, and the order
+    and meaning of the fields written by `save()` and read by `load()` agree, for all four tables. -/
+theorem layout_consistent :
+    layoutOK blueprintSpec blueprint_cols blueprint_types blueprint_creates blueprintWRoles blueprintRRoles
+      blueprint_loops blueprintLoops = true ∧
+    layoutOK metricSpec metric_cols metric_types metric_creates metricWRoles metricRRoles
+      metric_loops metricLoops = true ∧
+    layoutOK lookupSpec lookup_cols lookup_types lookup_creates lookupWRoles lookupRRoles
+      lookup_loops lookupLoops = true ∧
+    layoutOK transitionsSpec transitions_cols transitions_types transitions_creates transitionsWRoles
+      transitionsRRoles transitions_loops transitionsLoops = true := by
+  decide
+
+/-- the column named `regret` carries `memory.regret()` and is stored with `set_regret`;
+    the column named `policy` carries `memory.policy()` and is stored with `set_policy`
+    (the defect repaired by `fix: blueprint COPY column list …` had these two names exchanged). -/
+theorem layout_regret_policy :
+    (blueprint_cols.zip (blueprintSpec.wfields.map (·.expr))).lookup "regret" = some "memory.regret()" ∧
+    (blueprint_cols.zip (blueprintSpec.wfields.map (·.expr))).lookup "policy" = some "memory.policy()" ∧
+    (blueprint_cols.zip (blueprintSpec.rfields.map (·.sink))).lookup "regret" = some "memory.regret" ∧
+    (blueprint_cols.zip (blueprintSpec.rfields.map (·.sink))).lookup "policy" = some "memory.policy" ∧
+    (blueprint_cols.zip blueprint_types).lookup "regret" = some "FLOAT4" ∧
+    (blueprint_cols.zip blueprint_types).lookup "policy" = some "FLOAT4" := by
+  decide
+
+-- non-vacuity: the check does reject the pinned column list (policy and regret exchanged)
+example : layoutOK blueprintSpec ["past", "present", "future", "edge", "policy", "regret"] blueprint_types
+    blueprint_creates blueprintWRoles blueprintRRoles blueprint_loops blueprintLoops = false := by decide
+
+/-! ## bounds: values are 64-bit / 32-bit patterns -/
+
+def PRow.ok (r : PRow) : Prop :=
+  r.past < 18446744073709551616 ∧ r.present < 18446744073709551616 ∧ r.future < 18446744073709551616 ∧
+    r.edge < 18446744073709551616 ∧ r.regret < 4294967296 ∧ r.policy < 4294967296
+def MRow.ok (r : MRow) : Prop := r.xor < 18446744073709551616 ∧ r.dx < 4294967296
+def LRow.ok (r : LRow) : Prop := r.obs < 18446744073709551616 ∧ r.abs < 18446744073709551616
+def TRow.ok (r : TRow) : Prop :=
+  r.prev < 18446744073709551616 ∧ r.next < 18446744073709551616 ∧ r.dx < 4294967296
+
+theorem fits_blueprint (r : PRow) (h : PRow.ok r) : fits blueprintSpec.wfields r.toWire := by
+  have e : fits blueprintSpec.wfields r.toWire =
+      (r.past < 256 ^ 8 ∧ r.present < 256 ^ 8 ∧ r.future < 256 ^ 8 ∧ r.edge < 256 ^ 8 ∧
+        r.regret < 256 ^ 4 ∧ r.policy < 256 ^ 4 ∧ True) := rfl
+  rw [e]
+  have a : (256 : Nat) ^ 8 = 18446744073709551616 := by decide
+  have b : (256 : Nat) ^ 4 = 4294967296 := by decide
+  rw [a, b]
+  obtain ⟨h1, h2, h3, h4, h5, h6⟩ := h
+  exact ⟨h1, h2, h3, h4, h5, h6, trivial⟩
+
+theorem fits_metric (r : MRow) (h : MRow.ok r) : fits metricSpec.wfields r.toWire := by
+  have e : fits metricSpec.wfields r.toWire = (r.xor < 256 ^ 8 ∧ r.dx < 256 ^ 4 ∧ True) := rfl
+  rw [e]
+  have a : (256 : Nat) ^ 8 = 18446744073709551616 := by decide
+  have b : (256 : Nat) ^ 4 = 4294967296 := by decide
+  rw [a, b]
+  exact ⟨h.1, h.2, trivial⟩
+
+theorem fits_lookup (r : LRow) (h : LRow.ok r) : fits lookupSpec.wfields r.toWire := by
+  have e : fits lookupSpec.wfields r.toWire = (r.obs < 256 ^ 8 ∧ r.abs < 256 ^ 8 ∧ True) := rfl
+  rw [e]
+  have a : (256 : Nat) ^ 8 = 18446744073709551616 := by decide
+  rw [a]
+  exact ⟨h.1, h.2, trivial⟩
+
+theorem fits_transitions (r : TRow) (h : TRow.ok r) : fits transitionsSpec.wfields r.toWire := by
+  have e : fits transitionsSpec.wfields r.toWire = (r.prev < 256 ^ 8 ∧ r.next < 256 ^ 8 ∧ r.dx < 256 ^ 4 ∧ True) := rfl
+  rw [e]
+  have a : (256 : Nat) ^ 8 = 18446744073709551616 := by decide
+  have b : (256 : Nat) ^ 4 = 4294967296 := by decide
+  rw [a, b]
+  exact ⟨h.1, h.2.1, h.2.2, trivial⟩
+
+theorem fits_map {α : Type} (wfs : List WField) (f : α → List Nat) (rows : List α) (P : α → Prop)
+    (h : ∀ r, P r → fits wfs (f r)) (hr : ∀ r ∈ rows, P r) : ∀ w ∈ rows.map f, fits wfs w := by
+  intro w hw
+  obtain ⟨r, hr', rfl⟩ := List.mem_map.1 hw
+  exact h r (hr r hr')
+
+/-! ## what `load` makes of a saved file: the rows inserted in file order -/
+
+theorem specOK_all : specOK blueprintSpec = true ∧ specOK metricSpec = true ∧ specOK lookupSpec = true ∧
+    specOK transitionsSpec = true := by decide
+
+theorem load_save_blueprint (rows : List PRow) (hb : ∀ r ∈ rows, PRow.ok r) :
+    loadBlueprint (saveBlueprint rows) = some (buildP rows []) := by
+  simp only [loadBlueprint, saveBlueprint, load]
+  rw [loadWith_encode _ _ _ _ specOK_all.1 _ (fits_map _ _ rows PRow.ok fits_blueprint hb)]
+  simp only [List.foldl_map, buildP]
+  rfl
+
+theorem load_save_metric (rows : List MRow) (hb : ∀ r ∈ rows, MRow.ok r) :
+    loadMetric (saveMetric rows) = some (buildKV (rows.map (fun r => (r.xor, r.dx))) []) := by
+  simp only [loadMetric, saveMetric, load]
+  rw [loadWith_encode _ _ _ _ specOK_all.2.1 _ (fits_map _ _ rows MRow.ok fits_metric hb)]
+  simp only [List.foldl_map, buildKV]
+  rfl
+
+theorem load_save_lookup (rows : List LRow) (hb : ∀ r ∈ rows, LRow.ok r) :
+    loadLookup (saveLookup rows) = some (buildKV (rows.map (fun r => (r.obs, r.abs))) []) := by
+  simp only [loadLookup, saveLookup, load]
+  rw [loadWith_encode _ _ _ _ specOK_all.2.2.1 _ (fits_map _ _ rows LRow.ok fits_lookup hb)]
+  simp only [List.foldl_map, buildKV]
+  rfl
+
+/-! ## round trip -/
+
+/-- **blueprint**: for every canonical profile `t` (buckets ascending by code, every bucket with at
+    least one edge, edges ascending, any bit patterns) and every enumeration `rows` of its rows,
+    loading the saved file gives back exactly `t`. -/
+theorem C17_roundtrip_blueprint (t : PMap) (hw : WFP t) (hk : KeysOK t)
+    (rows : List PRow) (hb : ∀ r ∈ rows, PRow.ok r) (hm : ∀ r, r ∈ rows ↔ r ∈ t.rows) :
+    loadBlueprint (saveBlueprint rows) = some t := by
+  rw [load_save_blueprint rows hb, buildP_eq hw hk hm]
+
+/-- **metric**: every canonical map, every enumeration of its entries. -/
+theorem C17_roundtrip_metric (t : KV) (ht : Sorted t)
+    (rows : List MRow) (hb : ∀ r ∈ rows, MRow.ok r)
+    (hm : ∀ p, p ∈ rows.map (fun r => (r.xor, r.dx)) ↔ p ∈ t) :
+    loadMetric (saveMetric rows) = some t := by
+  rw [load_save_metric rows hb, buildKV_eq ht hm]
+
+/-- **lookup**: every canonical map, every enumeration of its entries. -/
+theorem C17_roundtrip_lookup (t : KV) (ht : Sorted t)
+    (rows : List LRow) (hb : ∀ r ∈ rows, LRow.ok r)
+    (hm : ∀ p, p ∈ rows.map (fun r => (r.obs, r.abs)) ↔ p ∈ t) :
+    loadLookup (saveLookup rows) = some t := by
+  rw [load_save_lookup rows hb, buildKV_eq ht hm]
+
+-- non-vacuity: the hypotheses are satisfiable on a table given in a non-canonical order, with a NaN
+-- payload, a negative zero and a key with the sign bit set
+example : loadMetric (saveMetric [⟨0x8000000000000005, 0x7fc12345⟩, ⟨3, 0x80000000⟩])
+    = some [(3, 0x80000000), (0x8000000000000005, 0x7fc12345)] :=
+  C17_roundtrip_metric _ (by simp [Sorted]) _ (by simp [MRow.ok]) (by intro p; simp [or_comm])
+-- and the model really computes it (kernel evaluation of encoder and decoder)
+example : loadMetric (saveMetric [⟨0x8000000000000005, 0x7fc12345⟩, ⟨3, 0x80000000⟩])
+    = some [(3, 0x80000000), (0x8000000000000005, 0x7fc12345)] := by decide +kernel
+example : loadBlueprint (saveBlueprint [⟨1, 2, 3, 4, 0xff800000, 6⟩, ⟨1, 2, 3, 1, 7, 8⟩, ⟨0, 2, 3, 1, 7, 0x7f800001⟩])
+    = some [(bkey 0 2 3, [(1, (7, 0x7f800001))]), (bkey 1 2 3, [(1, (7, 8)), (4, (0xff800000, 6))])] := by decide +kernel
+example : loadLookup (saveLookup [⟨0x0102, 0x0300000000000001⟩]) = some [(0x0102, 0x0300000000000001)] := by decide +kernel
+
+/-- the canonical enumeration (ascending codes) is one such enumeration -/
+theorem C17_roundtrip_metric_sorted (t : KV) (ht : Sorted t)
+    (hb : ∀ p ∈ t, p.1 < 18446744073709551616 ∧ p.2 < 4294967296) :
+    loadMetric (saveMetric (t.map (fun p => ⟨p.1, p.2⟩))) = some t := by
+  apply C17_roundtrip_metric t ht
+  · intro r hr
+    obtain ⟨p, hp, rfl⟩ := List.mem_map.1 hr
+    exact hb p hp
+  · intro p
+    simp [List.map_map, Function.comp_def]
+
+theorem C17_roundtrip_lookup_sorted (t : KV) (ht : Sorted t)
+    (hb : ∀ p ∈ t, p.1 < 18446744073709551616 ∧ p.2 < 18446744073709551616) :
+    loadLookup (saveLookup (t.map (fun p => ⟨p.1, p.2⟩))) = some t := by
+  apply C17_roundtrip_lookup t ht
+  · intro r hr
+    obtain ⟨p, hp, rfl⟩ := List.mem_map.1 hr
+    exact hb p hp
+  · intro p
+    simp [List.map_map, Function.comp_def]
+
+theorem C17_roundtrip_blueprint_sorted (t : PMap) (hw : WFP t) (hk : KeysOK t)
+    (hb : ∀ r ∈ t.rows, PRow.ok r) : loadBlueprint (saveBlueprint t.rows) = some t :=
+  C17_roundtrip_blueprint t hw hk t.rows hb (fun _ => Iff.rfl)
+
+/-! ## the file is a well-formed COPY stream whose columns carry what their names denote -/
+
+theorem pgOK_all : pgOK blueprintSpec = true ∧ pgOK metricSpec = true ∧ pgOK lookupSpec = true ∧
+    pgOK transitionsSpec = true := by decide
+
+/-- **blueprint file**: `pgParse` (the format specification) accepts the file and returns one tuple
+    per row whose `i`-th field is the value denoted by the `i`-th COPY column name, in the width of
+    the `i`-th `columns()` type. -/
+theorem C17_file_blueprint (rows : List PRow) :
+    pgParse (saveBlueprint rows)
+      = some (rows.map (fun r => declaredFields blueprint_cols blueprint_types r.get)) := by
+  simp only [saveBlueprint]
+  rw [pgParse_encode _ pgOK_all.1 _ ?_]
+  · simp only [List.map_map]
+    rfl
+  · intro w hw
+    obtain ⟨r, _, rfl⟩ := List.mem_map.1 hw
+    rfl
+
+-- non-vacuity: one blueprint row, as the format reader sees it
+example : pgParse (saveBlueprint [⟨1, 2, 3, 4, 5, 6⟩])
+    = some [[some [0,0,0,0,0,0,0,1], some [0,0,0,0,0,0,0,2], some [0,0,0,0,0,0,0,3], some [0,0,0,0,0,0,0,4],
+        some [0,0,0,5], some [0,0,0,6]]] := by decide +kernel
+-- and a damaged file is rejected by the format reader (trailer missing)
+example : pgParse ((saveBlueprint [⟨1, 2, 3, 4, 5, 6⟩]).take 85) = none := by decide +kernel
+
+theorem C17_file_metric (rows : List MRow) :
+    pgParse (saveMetric rows) = some (rows.map (fun r => declaredFields metric_cols metric_types r.get)) := by
+  simp only [saveMetric]
+  rw [pgParse_encode _ pgOK_all.2.1 _ ?_]
+  · simp only [List.map_map]
+    rfl
+  · intro w hw
+    obtain ⟨r, _, rfl⟩ := List.mem_map.1 hw
+    rfl
+
+theorem C17_file_lookup (rows : List LRow) :
+    pgParse (saveLookup rows) = some (rows.map (fun r => declaredFields lookup_cols lookup_types r.get)) := by
+  simp only [saveLookup]
+  rw [pgParse_encode _ pgOK_all.2.2.1 _ ?_]
+  · simp only [List.map_map]
+    rfl
+  · intro w hw
+    obtain ⟨r, _, rfl⟩ := List.mem_map.1 hw
+    rfl
+
+theorem C17_file_transitions (rows : List TRow) :
+    pgParse (saveTransitions rows)
+      = some (rows.map (fun r => declaredFields transitions_cols transitions_types r.get)) := by
+  simp only [saveTransitions]
+  rw [pgParse_encode _ pgOK_all.2.2.2 _ ?_]
+  · simp only [List.map_map]
+    rfl
+  · intro w hw
+    obtain ⟨r, _, rfl⟩ := List.mem_map.1 hw
+    rfl
+
+end RP.C17
